@@ -58,6 +58,10 @@ func (p *C12) Generate(seed uint64, run int) *Case {
 	// byte-level shapes an input path might treat differently from another
 	if b.Input != nil {
 		switch r.Intn(40) {
+		case 5, 6:
+			// nothing at all on the input (stdin may be /dev/null, FILE an empty file)
+			b.Input = []byte{}
+			c.Labels = append(c.Labels, "input:empty")
 		case 0:
 			b.Input = append([]byte("\xef\xbb\xbf"), b.Input...)
 			c.Labels = append(c.Labels, "input:bom")
@@ -123,6 +127,13 @@ func (p *C12) Generate(seed uint64, run int) *Case {
 			add("delivery", func(st *Step) { st.Stdin.Plan = simrt.Plan{Chunks: []int{1}, EOFWithData: r.Chance(1, 2)} })
 		}
 		add("inpath:dash", func(st *Step) { st.Argv = append(st.Argv, "-") })
+		if r.Chance(1, 3) {
+			// standard input is a redirected regular file rather than a pipe
+			add("inpath:redirect", func(st *Step) { st.Stdin.Kind = "file" })
+		}
+		if len(b.Input) == 0 {
+			add("inpath:devnull", func(st *Step) { st.Stdin.Kind = "chardev" })
+		}
 		add("inpath:file", func(st *Step) {
 			st.Argv = append(st.Argv, inPath)
 			if st.Files == nil {
@@ -152,6 +163,12 @@ func (p *C12) Generate(seed uint64, run int) *Case {
 		if r.Chance(1, 2) {
 			// the -o target already exists and is longer than anything crd writes here
 			withExistingOutput(r, st)
+		} else if r.Chance(1, 2) {
+			// the -o target lives on another file system than the temp directory
+			if st.Files == nil {
+				st.Files = map[string]*simrt.FileSpec{}
+			}
+			st.Files[outPath] = &simrt.FileSpec{RenameErr: "EXDEV"}
 		}
 	})
 	if r.Chance(1, 3) {
